@@ -12,7 +12,8 @@ Bounded-exhaustive enumeration, executed on the real extension module inside vx-
   view_reuse   explicit-state BFS (to fixpoint) over the reuse histories of ONE StripedSequence object
                ({calculate with widths 5, 15, 33, 40, copy}) - a fresh view is taken and fully compared
                after every transition; also ScoringMatrix after it has been used for scoring.
-  stale_view   one history (view held ACROSS a reallocating reuse); only with --only stale_view, meant to
+  stale_view   18 histories of {view, release, copy, calculate, scan} with views held ACROSS reuses (fitting the
+               reserved rows or reallocating; on the object and on copies); only with --only stale_view, meant to
                be run under valgrind by the driver.
 
 Nothing here is sampled: every loop is a complete product / BFS; VERIF seed is unused.
@@ -582,8 +583,12 @@ REUSE_DESC = ("explicit-state BFS to fixpoint over reuse histories of ONE real S
               "look-ahead rows must not show up as sequence rows); histories cover fresh / reused within the 32 reserved rows "
               "/ reused with reallocation (width 40) / copies. Plus ScoringMatrix views and indexing after the matrix was used "
               "by calculate / score_distribution / pvalue.")
-STALE_DESC = ("one history, meant to run under valgrind: v = memoryview(striped DNA sequence, L=100); "
-              "pssm(width 40).calculate(striped) reallocates the rows; bytes(v) is then read through the exported pointer. "
+STALE_DESC = ("histories on ONE striped sequence (L=100; DNA under the default and the generic arm, protein), meant to run under valgrind: "
+              "ops {view = memoryview(seq) kept alive, release, copy (continue on the copy, the original and its views stay alive), calculate(width M), scan(width M)}; "
+              "18 histories: a view held across calculate / scan with widths that fit the rows reserved when striping (5, 15, 33) or not (40); "
+              "the same on a COPY (no spare rows: widths 2, 5, 40) and on a copy of a configured sequence; views of the original while the copy is reused and vice versa; "
+              "two views with one released; released-then-reused-then-viewed. After every operation every live view is read in full through the exported pointer. "
+              "A reuse refused with BufferError while a view is alive must leave the view intact and go through once the views are released. "
               "Values cannot decide this clause (freed memory usually keeps its bytes); the memory monitor does.")
 
 
@@ -785,47 +790,119 @@ def space_view_reuse(ctx, rep):
 
 
 def stale_history(rep, spec):
-    protein, L, M = bool(spec["protein"]), int(spec["L"]), int(spec["M"])
+    """Run one history of {view, release, copy, calc M, scan M} on ONE striped DNA/protein sequence object; every view
+    still alive is read (all its bytes) after every later operation. Returns (sum before, sum after, expected sum) of the
+    FIRST view for the record. A reuse the library refuses with BufferError while a view is alive leaves everything in
+    place (the buffer protocol's answer, as for bytearray); any other exception, or a BufferError with no view alive,
+    is a violation. Whether the reads touch freed memory is decided by the memory monitor, not by the values."""
+    protein, L = bool(spec["protein"]), int(spec["L"])
     vxref.force(spec.get("arm"))
     ranks = seq_ranks(L, protein)
     K = len(alpha(protein))
     R = (L + COLS - 1) // COLS
-    striped = lightmotif.stripe(seq_text(L, protein), protein=protein)
-    pssm = cached_pssm(M, protein)
-    v = memoryview(striped)
-    before = sum(bytes(v))
-    r = call(pssm.calculate, striped)
-    if r[0] == "exc":
-        if "Panic" in r[1]:
-            rep.violation("C18 StripedSequence reuse while a view is held %s" % r[1],
-                          "calculate(width %d) on a sequence with a live view raised %s(%s)" % (M, r[1], r[2][:120]), dict(spec))
-        else:
-            rep.note("stale_view: the library refuses the growing reuse while a view is held (%s: %s) - the view stays valid" % (r[1], r[2][:120]))
-    checksum = sum(bytes(v))
-    del v
     expected = sum(ranks) + (COLS * R - L) * (K - 1)
+    seq = lightmotif.stripe(seq_text(L, protein), protein=protein)
+    views, old = [], []
+    first = [None, None]
+
+    def read_all(after):
+        for v in views:
+            got = sum(bytes(v))
+            if first[0] is None:
+                first[0] = got
+            first[1] = got
+            if got != expected:
+                rep.violation("C18 StripedSequence view held across a reuse shows different bytes",
+                              "sum(bytes(view)) = %d after %s, logical contents %d" % (got, after, expected), dict(spec))
+
+    for op in spec["history"]:
+        kind = op[0]
+        if kind == "view":
+            views.append(memoryview(seq))
+        elif kind == "release":
+            if views:
+                views.pop(0).release()
+        elif kind == "copy":
+            old.append(seq)
+            seq = seq.copy()
+        elif kind in ("calc", "scan"):
+            M = int(op[1])
+            pssm = cached_pssm(M, protein)
+            if kind == "calc":
+                r = call(pssm.calculate, seq)
+            else:
+                r = call(lambda: list(lightmotif.scan(pssm, seq, threshold=1e9, block_size=3)))
+            if r[0] == "exc":
+                mine = [v for v in views if v.obj is seq]
+                if r[1] == "BufferError" and mine:
+                    rep.note("stale_view: the library refuses the growing reuse while a view is held (%s: %s) - the view stays valid" % (r[1], r[2][:120]))
+                    # once the views are released the same reuse must go through
+                    keep = [v for v in views if v.obj is not seq]
+                    probe = [bytes(v) for v in mine]
+                    for v in mine:
+                        v.release()
+                    views[:] = keep
+                    r2 = call(pssm.calculate, seq) if kind == "calc" else call(lambda: list(lightmotif.scan(pssm, seq, threshold=1e9, block_size=3)))
+                    if r2[0] == "exc" and not (protein and kind == "scan" and "Panic" not in r2[1]):
+                        rep.violation("C18 StripedSequence reuse refused without a live view %s" % r2[1],
+                                      "%s(width %d) after releasing every view raised %s(%s)" % (kind, M, r2[1], r2[2][:120]), dict(spec))
+                    if any(sum(b) != expected for b in probe):
+                        rep.violation("C18 StripedSequence view held across a refused reuse shows different bytes", "contents changed", dict(spec))
+                elif protein and kind == "scan" and "Panic" not in r[1]:
+                    pass  # documented: the scanner is DNA only
+                else:
+                    rep.violation("C18 StripedSequence reuse while a view is held %s" % r[1],
+                                  "%s(width %d) in history %r raised %s(%s)" % (kind, M, spec["history"], r[1], r[2][:120]), dict(spec))
+        elif kind != "read":
+            raise ValueError("unknown stale-history op %r" % (op,))
+        read_all(repr(op))
+    for v in views:
+        v.release()
     vxref.force(None)
-    return before, checksum, expected
+    return first[0] if first[0] is not None else expected, first[1] if first[1] is not None else expected, expected
+
+
+def stale_histories():
+    hs = []
+    # a view held across a reuse that fits the rows reserved when striping (5, 15, 33) or does not (40)
+    for M in (5, 15, 33, 40):
+        hs.append([["view"], ["calc", M], ["read"]])
+    for M in (5, 40):
+        hs.append([["view"], ["scan", M], ["read"]])
+    # a copy has no spare rows: every reuse of a copy that adds look-ahead rows moves its matrix
+    for M in (2, 5, 40):
+        hs.append([["copy"], ["view"], ["calc", M], ["read"]])
+    hs.append([["copy"], ["view"], ["scan", 5], ["read"]])
+    hs.append([["calc", 5], ["copy"], ["view"], ["calc", 5], ["calc", 15], ["read"]])
+    # the view of the ORIGINAL stays valid whatever happens to its copy, and the other way round
+    hs.append([["view"], ["copy"], ["calc", 40], ["read"]])
+    hs.append([["copy"], ["view"], ["copy"], ["calc", 40], ["read"]])
+    # two views, one released: still exported; all released: the reuse goes through and a later view is fresh
+    hs.append([["view"], ["view"], ["release"], ["calc", 40], ["read"]])
+    hs.append([["view"], ["release"], ["calc", 40], ["view"], ["calc", 15], ["read"]])
+    hs.append([["view"], ["calc", 15], ["view"], ["calc", 40], ["read"]])
+    return hs
 
 
 def space_stale(ctx, rep):
     rep.space("stale_view", STALE_DESC)
-    # widths 5, 15, 33 need at most the 32 reserved look-ahead rows: the view must stay valid;
-    # width 40 forces a reallocation (the recorded finding). Each history is its own case for the monitor.
     for arm in (None, "generic"):
-        for M in (5, 15, 33, 40):
-            spec = {"cls": "StripedSequence", "protein": False, "L": 100, "M": M, "arm": arm, "kind": "stale_view",
-                    "history": [["view"], ["calc", M], ["read view"]]}
-            module = "C18 view held across calculate(width %d) arm=%s" % (M, arm or "default")
-            if not vxpy.crumb({"module": module, "case": spec}):
-                continue
-            before, checksum, expected = stale_history(rep, spec)
-            rep.eval(True)
-            rep.add_states(3, 2, depth=2)
-            rep.sample(dict(spec, checksum_before=before, checksum_after=checksum, expected=expected))
-            if checksum != expected:
-                rep.violation("C18 StripedSequence view held across calculate(width %d) shows different bytes" % M,
-                              "sum(bytes(view)) %d before, %d after the reuse, logical contents %d" % (before, checksum, expected), dict(spec))
+        for protein in (False, True):
+            for hist in stale_histories():
+                if protein and arm is not None:
+                    continue
+                spec = {"cls": "StripedSequence", "protein": protein, "L": 100, "arm": arm, "kind": "stale_view", "history": hist}
+                if len(hist) == 3 and hist[0] == ["view"] and hist[1][0] == "calc" and not protein:
+                    # the module name of the first family is kept (known_findings.txt refers to it)
+                    module = "C18 view held across calculate(width %d) arm=%s" % (hist[1][1], arm or "default")
+                else:
+                    module = "C18 views held across history %s%s arm=%s" % ("protein " if protein else "", "".join("[%s]" % " ".join(str(x) for x in op) for op in hist), arm or "default")
+                if not vxpy.crumb({"module": module, "case": spec}):
+                    continue
+                before, checksum, expected = stale_history(rep, spec)
+                rep.eval(True)
+                rep.add_states(len(hist) + 1, len(hist), depth=len(hist))
+                rep.sample(dict(spec, checksum_before=before, checksum_after=checksum, expected=expected))
     rep.note("stale_view: a view held across a reuse is decided by the memory monitor (the freed block usually still holds the right bytes)")
 
 
@@ -843,9 +920,8 @@ def run(ctx, rep):
     if ctx.wants("view_reuse"):
         space_view_reuse(ctx, rep)
     if not (ctx.only is not None and ctx.wants("stale_view")):
-        rep.not_covered_("clause (d), a view held ACROSS a reallocating reuse of the StripedSequence (history [memoryview, "
-                         "calculate(width 40), read view]): cannot be decided by comparing values; run with --only stale_view "
-                         "under valgrind (PYTHONMALLOC=malloc)")
+        rep.not_covered_("clause (d), views held ACROSS reuses of the StripedSequence (histories of the stale_view space): cannot be "
+                         "decided by comparing values; run with --only stale_view under valgrind (PYTHONMALLOC=malloc)")
     rep.not_covered_("buffer requests other than memoryview()'s PyBUF_FULL_RO (e.g. writable or C-contiguous-only requests)")
     vxref.force(None)
 
